@@ -60,6 +60,25 @@ fn worker_main(args: &[String]) {
     let out = arg_after(args, "--out").unwrap_or_else(|| "/dev/stdout".into());
     world::install_panic_hook();
     parts::start_watchdog(&prop, &part, seed, &out);
+    if part == "replay" {
+        // replay one saved case under the watchdog
+        let file = arg_after(args, "--file").unwrap_or_default();
+        let mut r = WorkerResult { part: "replay".into(), evaluations: 1, ..Default::default() };
+        if let Ok(b) = std::fs::read(&file) {
+            if let Ok(v) = serde_json::from_slice::<Value>(&b) {
+                let p = v.get("part").and_then(|x| x.as_str()).unwrap_or("hist").to_string();
+                let case = v.get("case").cloned().unwrap_or(Value::Null);
+                if let Ok(mut c) = runner::CURRENT_CASE.lock() {
+                    *c = case.to_string();
+                }
+                if let Some((vp, msg, log)) = parts::replay_part(&prop, &p, &case) {
+                    r.violation = Some(Violation { prop: vp, msg, case, log, part: p, seed: 0, kind: "replay".into() });
+                }
+            }
+        }
+        std::fs::write(&out, serde_json::to_vec(&r).unwrap()).unwrap();
+        std::process::exit(0);
+    }
     let r = parts::run_part(&prop, &part, &tier, cases, seed, shard, nshards);
     std::fs::write(&out, serde_json::to_vec(&r).unwrap()).unwrap();
     std::process::exit(0);
@@ -300,11 +319,19 @@ fn check_main(args: &[String]) {
 }
 
 fn replay_case_file(prop: &str, file: &str) -> Option<Violation> {
-    let v: Value = serde_json::from_slice(&std::fs::read(file).ok()?).ok()?;
-    let part = v.get("part")?.as_str()?.to_string();
-    let case = v.get("case")?.clone();
-    let r = parts::replay_part(prop, &part, &case)?;
-    Some(Violation { prop: r.0, msg: r.1, case, log: r.2, part, seed: 0, kind: "replay".into() })
+    // in a worker process, so that a replay that hangs is caught by the watchdog
+    let exe = std::env::current_exe().ok()?;
+    let out = format!("{}/.scratch/replay-{}-{}.json", verif_root(), std::process::id(), model::sha_hex(file.as_bytes())[..8].to_string());
+    let _ = std::fs::create_dir_all(format!("{}/.scratch", verif_root()));
+    let st = Command::new(&exe).args(["worker", prop, "replay", "--file", file, "--out", &out]).env("RAYON_NUM_THREADS", "2").stdout(Stdio::null()).stderr(Stdio::null()).status().ok()?;
+    let r: Option<WorkerResult> = std::fs::read(&out).ok().and_then(|b| serde_json::from_slice(&b).ok());
+    let _ = std::fs::remove_file(&out);
+    let _ = st;
+    let mut v = r?.violation?;
+    if v.case.is_null() {
+        v.case = serde_json::from_slice::<Value>(&std::fs::read(file).ok()?).ok()?.get("case").cloned().unwrap_or(Value::Null);
+    }
+    Some(v)
 }
 
 fn replay_file(prop: &str, file: &str, verbose: bool) -> i32 {
